@@ -516,6 +516,18 @@ mutual
         | _ => throw (.stuck "OpLogicalNot")
       | 169 => do  -- Select cond a b
         def_ (← opt (selectVal (← v 4) (← v 3) (← v 2)) "OpSelect")
+      | 201 | 202 | 203 => do
+        -- OpBitFieldInsert (base insert offset count) / OpBitFieldSExtract / OpBitFieldUExtract (base offset count): "the
+        -- resulting value is undefined if Count or Offset or their sum is greater than the number of bits in the result"
+        let ins := i.op == 201
+        let oc (k : Nat) : M Nat := do match (← v k) with
+          | .u32 a | .i32 a => pure a.toNat
+          | _ => throw (.stuck "bit-field offset / count")
+        let o ← oc (if ins then 4 else 3)
+        let c ← oc (if ins then 5 else 4)
+        if o + c > 32 then throw (.ub "OpBitField*: Offset + Count exceeds the width") else
+        if ins then def_ (← lift2 m ty (fun a b => pure (insertField a b o c)) (← v 2) (← v 3))
+        else def_ (← lift1 m ty (fun a => pure (extractField (i.op == 202) a o c)) (← v 2))
       | 200 => do def_ (← lift1 m ty (fun a => pure (~~~a)) (← v 2))
       | 204 => do def_ (← lift1 m ty (fun a => pure (reverseBitsW a)) (← v 2))
       | 205 => do def_ (← lift1 m ty (fun a => pure (BitVec.ofNat 32 (popcount a))) (← v 2))
